@@ -287,15 +287,19 @@ class CompiledRouter:
                 new_node.resource = resource
                 new_node.uri_template = uri_template
             else:
-                cpc = find_cmp_converter(new_node)
-                if cpc:
-                    # NOTE(caselit): assume success and remove the node if it's not
-                    # supported to avoid leaving the router in a broken state.
+                # NOTE: assume success and remove the node again if the rest of
+                # the template turns out to be unacceptable, to avoid leaving
+                # half-inserted (resource-less, childless) nodes in the tree.
+                try:
+                    cpc = find_cmp_converter(new_node)
+                    if cpc:
+                        raise UnacceptableRouteError(
+                            _NO_CHILDREN_ERR.format(uri_template, *cpc)
+                        )
+                    insert(new_node.children, path_index + 1)
+                except Exception:
                     nodes.remove(new_node)
-                    raise UnacceptableRouteError(
-                        _NO_CHILDREN_ERR.format(uri_template, *cpc)
-                    )
-                insert(new_node.children, path_index + 1)
+                    raise
 
         insert(self._roots)
         # NOTE(caselit): when compile is True run the actual compile step, otherwise
